@@ -50,6 +50,9 @@ def cases(seed, tier):
                     if rng.random() < 0.5:
                         scripts[a["args"]["id"] + "@" + u] = [rng.choice(["C", "S", "S", "A", "S+1"]) for _ in range(nticks * 2)]
             extra = {"cgroups": cg}
+        if i % 4 >= 2 and i % 8 < 6:
+            # drop-ins for these rulesets come and go (or fail and are rolled back) inside the pause windows
+            c02.dropin_noise(rng, rulesets, ticks, p=0.5)
         yield core.Case(cid, [c02.mk_scn(cid, {"rulesets": rulesets}, scripts, ticks, extra)], {"rulesets": nrs, "ticks": nticks})
 
 
